@@ -98,7 +98,7 @@ func VerifH_json_roundtrip() {
 		limit = 4
 	}
 	r := &vfFragReader{data: wire}
-	if len(wire) > vfBound(12, 16) {
+	if len(wire) > vfBound(12, 13) {
 		r.greedy = true
 		r.maxChunk = 1 + vfChoice(3)
 	}
